@@ -53,7 +53,9 @@ func c03Check(r ref.CharRecipe, out GenOut, abSet map[string]bool) string {
 	return ""
 }
 
-func c03Recipe(c *core.Ctx, r ref.CharRecipe, full bool) {
+func c03Recipe(c *core.Ctx, r ref.CharRecipe, full bool) { c03RecipeMode(c, r, full, false) }
+
+func c03RecipeMode(c *core.Ctx, r ref.CharRecipe, full bool, long bool) {
 	sr := toSpg(r)
 	lit := recipeLit(r)
 	key := "recipe " + mustJSON(lit)
@@ -131,6 +133,9 @@ func c03Recipe(c *core.Ctx, r ref.CharRecipe, full bool) {
 	// every (first/last) position
 	positions := []int{0, r.Length - 1}
 	idxs := []int{0, 1, N - 1}
+	if long {
+		positions, idxs = []int{r.Length - 1}, []int{N - 1}
+	}
 	if full {
 		positions = positions[:0]
 		for i := 0; i < r.Length; i++ {
@@ -249,10 +254,38 @@ func c03Orders(c *core.Ctx) {
 	}
 }
 
+// c03Long: long passwords (where a success probability computed in float32
+// rounds to exactly 1): the first candidate avoids one required set entirely
+// and must not be returned.
+func c03Long(c *core.Ctx) {
+	recipes := []ref.CharRecipe{
+		{Allow: ref.All, Require: ref.Lowers},
+		{Allow: ref.Letters, Require: ref.Digits},
+		{Allow: ref.All, Require: ref.All},
+		{Allow: ref.All, Exclude: ref.Ambiguous, Require: ref.Digits | ref.Symbols},
+		{Allow: ref.Lowers, RequireSets: []string{"é", "0"}},
+	}
+	lens := []int{24, 28, 40, 100, 160}
+	if c.Thorough() {
+		lens = []int{20, 24, 25, 28, 32, 40, 64, 80, 96, 100, 128, 150, 200, 300, 500}
+	}
+	for _, L := range lens {
+		for _, r := range recipes {
+			if !c.Mine() {
+				continue
+			}
+			r.Length = L
+			c03RecipeMode(c, r, false, true)
+			c.Count("long_recipes", 1)
+		}
+	}
+}
+
 func c03Run(c *core.Ctx) {
 	if !charPairs(c) {
 		return
 	}
+	c03Long(c)
 	c03Orders(c)
 	lengths := []int{1, 2, 5}
 	for trip := 0; trip < 1<<15; trip++ {
@@ -286,7 +319,7 @@ func init() {
 		Level: "model_checking",
 		Build: "inst",
 		Rule: "all 2^15 (allow,require,exclude) class-flag triples x 10 custom-string settings (multi-byte, duplicates, overlaps, emptied sets) x lengths {1,2,5} (quick: every triple once, the 3-class subset completely): Alphabet() compared with the model; Generate run on a policy tape with a valid first candidate, then with each position forced to each alphabet index (one deviation; thorough adds a second), then with a first candidate that misses each single requirement; " +
-			"every returned password checked token by token; plus 64 (thorough 512) triples of the 3-class subset under all 120 iteration orders of the class map (instrumented build); non-trivial = distinct passwords observed",
+			"every returned password checked token by token; the same for 5 recipes at 5 (thorough 15) lengths from 20 to 500; plus 64 (thorough 512) triples of the 3-class subset under all 120 iteration orders of the class map (instrumented build); non-trivial = distinct passwords observed",
 		Assume:    []string{"deviation-bounded: at most 1 (quick) / 2 (thorough) draws deviate from the model's valid candidate per execution; complete cells are C02's"},
 		Run:       c03Run,
 		StatesKey: "executions", TransKey: "executions",
